@@ -338,6 +338,18 @@ def check_serde_tables(ctx, res, config="all"):
                 a0, a1 = at.of_operand(rv["ops"][0]), at.of_operand(rv["ops"][1])
                 if any(a[0] == "param" and a[1] == 1 and a[2] == ("sign",) for a in a0) and any(a[0] == "param" and a[1] == 1 and a[2] == ("data",) for a in a1):
                     ok = True
+        if not ok:
+            # the same pair written out by hand: serialize_tuple(2), element(sign), element(magnitude), end()
+            tup = [(i, t) for i, t in b.calls() if callee_name(t) == "serialize_tuple" and i in b.live_blocks()]
+            els = [(i, t) for i, t in b.calls() if callee_name(t) == "serialize_element" and i in b.live_blocks()]
+            if len(tup) == 1 and len(els) == 2 and op_const(tup[0][1]["args"][1]) == 2:
+                at = Atoms(b)
+                (i0, t0), (i1, t1) = els
+                if b.block_dominates(i1, i0) and not b.block_dominates(i0, i1):
+                    (i0, t0), (i1, t1) = (i1, t1), (i0, t0)
+                a0, a1 = at.of_operand(t0["args"][1]), at.of_operand(t1["args"][1])
+                if b.block_dominates(i0, i1) and any(a[0] == "param" and a[1] == 1 and a[2][-1:] == ("sign",) for a in a0) and any(a[0] == "param" and a[1] == 1 and a[2][-1:] == ("data",) for a in a1):
+                    ok = True
         if ok:
             res.ok("R7-serde-bigint-pair", "serialize", {"tuple": "(sign, &data)"})
         else:
@@ -381,14 +393,20 @@ def check_serde_tables(ctx, res, config="all"):
         b = bs[0]
         at = Atoms(b)
         ok = False
-        for i, t in b.calls():
-            if callee_name(t) == "min" and len(t["args"]) == 2:
-                xs = [at.of_operand(a) for a in t["args"]]
-                caps = [c for x in xs for c in consts_of(x) if isinstance(c, int) and c > 0]
-                hint = any(params_of(x) == {1} for x in xs)
-                # cap must bound the byte budget: <= 2^20 / 4 elements
-                if hint and caps and max(caps) <= (1 << 20) // 4:
-                    ok = True
+        unknown_cap = False
+        # the min() may sit in the function or in a closure it passes to an Option combinator (`hint.map_or(0, |h| min(h, CAP))`)
+        scopes = [(b, at, {1})] + [(c_, Atoms(c_), {2}) for c_ in facts.bodies if c_.kind == "Closure" and c_.j.get("closure_of") == b.path]
+        for sb, sat, hint_params in scopes:
+            for i, t in sb.calls():
+                if callee_name(t) == "min" and len(t["args"]) == 2:
+                    xs = [sat.of_operand(a) for a in t["args"]]
+                    caps = [c for x in xs for c in consts_of(x) if isinstance(c, int) and c > 0]
+                    hint = any(params_of(x) and params_of(x) <= hint_params for x in xs)
+                    # cap must bound the byte budget: <= 2^20 / 4 elements
+                    if hint and caps and max(caps) <= (1 << 20) // 4:
+                        ok = True
+                    elif hint and not caps and any(any(a_[0] == "named" for a_ in x) for x in xs):
+                        unknown_cap = True  # a named constant the driver could not evaluate
         # the constant may be computed (Div(1048576, size_of)): accept a Div with const numerator 2^20
         if not ok:
             for i, si, s in b.stmts():
@@ -397,6 +415,9 @@ def check_serde_tables(ctx, res, config="all"):
                     ok = True
         if ok:
             res.ok("R7-serde-cautious", "cautious", {"cap_elements": (1 << 20) // 4})
+        elif unknown_cap:
+            res.note("R7-serde-cautious: the size hint is capped by min(hint, <named constant>) whose value is not visible in MIR - the 1 MiB bound is not decided")
+            res.ok("R7-serde-cautious", "cautious", {"undecided": "named cap"}, nontrivial=False)
         else:
             res.fail(Finding("R7-serde-cautious", "cautious", "pre-allocation from an untrusted size hint is not capped at 1 MiB worth of u32 elements", b))
     else:
